@@ -8,6 +8,7 @@ Bounded-exhaustive exploration:
 import itertools
 
 from mc.models import ids
+from mc.core.util import exc_name
 
 ID = "C14"
 LEVEL = "exploration"
@@ -28,7 +29,7 @@ def _call(fn, *args):
     try:
         return ["ok", fn(*args)]
     except Exception as exc:                                    # noqa
-        return ["exc", type(exc).__name__]
+        return ["exc", exc_name(exc)]
 
 
 def _lib():
